@@ -199,6 +199,37 @@ def gc2_scenarios():
     return out
 
 
+def gcp_scenarios():
+    """pretend mode: two dry-run requests, then a real one, over stores with 2 and 3 collectable files"""
+    out = []
+    for i, (fm, rng_) in enumerate(((2, (0, -1)), (3, (0, -1)), (2, (0, 0)), (2, (1, -1)))):
+        ops = [{'op': 'set', 'k': 'a', 'v': 1}, {'op': 'set', 'k': 'a', 'v': 2}, {'op': 'set', 'k': 'b', 'v': 3},
+               {'op': 'set', 'k': 'b', 'v': 4}, {'op': 'set', 'k': 'c', 'v': 5}, {'op': 'set', 'k': 'c', 'v': 6}, {'op': 'set', 'k': 'c', 'v': 7},
+               {'op': 'flush'}, {'op': 'gcp', 'begin': rng_[0], 'end': rng_[1]}, {'op': 'readall'}]
+        out.append({'id': 'gcp-%d' % i, 'family': 'gc2', 'keys': {'a': 'a', 'b': 'b', 'c': 'c'},
+                    'conf': {'filemax_blk': fm, 'splitcap': 3, 'bodymax_blk': 1, 'buckets': 16, 'bucket': 15, 'height': 3}, 'ops': ops})
+    return out
+
+
+def check_gcp(traces):
+    """C17 pretend clause from GCP events: a dry run registers nothing, changes no file, and refuses nobody after it"""
+    bad = []
+    n = 0
+    for sid, evs in traces.items():
+        for e in evs:
+            if e.get('a') != 'GCP':
+                continue
+            n += 1
+            ok = (e['p1'][2] == '' and e['p2'][2] == e['p1'][2] and e['reg1'] == 0 and e['reg2'] == 0 and not e['changed']
+                  and e['real'][2] == '' and not e['stillrunning'] and e['p1'][:2] == e['p2'][:2] == e['real'][:2])
+            # (a range that is refused must be refused alike by all three requests)
+            if e['p1'][2] != '':
+                ok = e['p2'][2] != '' and e['real'][2] != '' and e['reg1'] == 0 and e['reg2'] == 0 and not e['changed']
+            if not ok:
+                bad.append((sid, e['n'], 'C17_Pretend'))
+    return bad, n
+
+
 def check_gc2(traces):
     """returns list of (sid, n, check) from GC2 events: both requests accepted, or two passes overlapped"""
     bad = []
